@@ -145,6 +145,8 @@ def plan(prop, tier, seed):
         add(['tb2', 'hyb2', 'evloop'], K=2 if q else 3, until='symnc', caches=(False,), lazies=(True, False))
         add(['hyb2_init', 'ev2_init2'], K=2, caches=(True,))
         add(['async_in', 'async_out'], K=2, caches=(True,), masks='sync+one')
+        # weak connections with output times up to `until` announced from a sub-step (a step demanded at (until, k > 0))
+        add(['weakonly', 'weak2'], K=2, until=2, caches=(True,), lazies=(True, False), masks='extremes', extra={'future_outputs': True})
         add(['tworoutes', 'tworoutes_flat'], K=2, until=2, caches=(True,), masks='extremes', extra={'no_self': ['A', 'B', 'C', 'D']})
         add(['lazyroutes'], K=2, until=2, caches=(True,), masks='extremes', lazies=(True, False), extra={'no_self': ['A', 'B', 'C', 'D']})
         add(['weak4'], K=2, until=2, caches=(True,), lazies=(True, False), masks='extremes', extra={'no_self': ['P', 'Q', 'R', 'D']})
